@@ -3,7 +3,7 @@ import ast
 import re
 
 from ..model import AnalysisError, Model, walk_no_nested, norm_stmt
-from .. import flow, chelpers, cgen, evalexpr
+from .. import flow, chelpers, cgen, evalexpr, cinterp
 
 EXPLANATION = (
     'Static analysis of the C helper strings (pycparser) and of the generator trees: (R1) every access to self_p->buf_p in a helper uses a '
@@ -103,6 +103,123 @@ def helper_rules(ctx, pid, rel, unit_bits):
     for name, why in probs:
         ctx.violation(R4, rel, None, '%s::functions[%s]' % (rel, name), why, stmt='registry ' + name)
     return helpers
+
+
+def arithmetic_rules(ctx, pid, rel, unit_bits):
+    """R10: the integer append/read helpers of one library, interpreted by sa/cinterp.py on boundary values: the encoder writes the
+    octets / bits the Python codec writes for that field, the decoder reads the value back and advances by exactly that much."""
+    from ..cinterp import Val, Ptr, Undecided
+    R10 = pid + '.R10'
+    ctx.rule(R10, 'C helpers: integer append/read pairs evaluated on boundary values (own interpreter with C integer semantics) against the wire format, encoder and decoder')
+    try:
+        lib = cinterp.library(ctx.model, rel)
+    except Undecided as e:
+        ctx.instance(R10, '%s helper library' % rel, 'undecided', str(e), nontrivial=False, file=rel)
+        return
+    bit_unit = unit_bits == 1        # uper: positions count bits; oer: octets
+
+    def struct():
+        return {'buf_p': None, ('type', 'buf_p'): 'ptr', 'size': Val(0, (64, True)), ('type', 'size'): (64, True), 'pos': Val(0, (64, True)), ('type', 'pos'): (64, True)}
+
+    def param_type(fd, i):
+        ps = fd.decl.type.args.params
+        return lib.type_of_decl(ps[i].type) if i < len(ps) else None
+
+    def run_pair(kind, wfn, rfn, value, extra, lead_bits):
+        """-> (written bits as a '0'/'1' string after the lead, value read back, bits consumed) ; lead_bits: 1-bits written first
+        (uper: to leave octet alignment)"""
+        lib.steps = 0
+        size = 40
+        e = struct()
+        mem = bytearray(size)
+        lib.call('encoder_init', [e, Ptr(mem, 0), Val(size, (64, False))])
+        for _ in range(lead_bits):
+            lib.call('encoder_append_bit', [e, Val(1, (32, True))])
+        vt = param_type(lib.funcs[wfn], 1)
+        lib.call(wfn, [e, Val(value, vt)] + [Val(x, (8, False)) for x in extra])
+        r = lib.call('encoder_get_result', [e])
+        if r.v < 0:
+            raise Undecided('encoder reports error %d' % r.v)
+        pos_bits = e['pos'].v * (1 if bit_unit else 8)
+        bits = ''.join(format(b, '08b') for b in mem)[:pos_bits]
+        d = struct()
+        dm = bytearray(mem[:r.v]) + bytearray(b'\xa5' * 4)
+        lib.call('decoder_init', [d, Ptr(dm, 0), Val(len(dm), (64, False))])
+        for _ in range(lead_bits):
+            lib.call('decoder_read_bit', [d])
+        got = lib.call(rfn, [d] + [Val(x, (8, False)) for x in extra])
+        used = d['pos'].v * (1 if bit_unit else 8)
+        return bits[lead_bits:], got.v, used - lead_bits
+
+    def boundary_values(lo, hi):
+        vals = {lo, hi, 0, 1, -1, lo + 1, hi - 1}
+        for k in (7, 8, 15, 16, 23, 24, 31, 32, 39, 47, 48, 55, 56, 63):
+            for v in (1 << k, (1 << k) - 1, (1 << k) + 1, -(1 << k), -(1 << k) - 1, (1 << k) | (1 << (k - 7)), 0x9c40 << max(0, k - 15)):
+                vals.add(v)
+        return sorted(v for v in vals if lo <= v <= hi)
+    cases = []       # (label, kind, writer, reader, value, extra args, expected bits)
+    for name in sorted(lib.funcs):
+        if not name.startswith('encoder_append_'):
+            continue
+        x = name[len('encoder_append_'):]
+        rname = 'decoder_read_' + x
+        if rname not in lib.funcs:
+            continue
+        m_ = re.match(r'^(u?)int(8|16|32|64)$', x)
+        if m_:
+            unsigned, w = m_.group(1) == 'u', int(m_.group(2))
+            lo, hi = (0, (1 << w) - 1) if unsigned else (-(1 << (w - 1)), (1 << (w - 1)) - 1)
+            for v in boundary_values(lo, hi):
+                if bit_unit:
+                    field = v if unsigned else v + (1 << (w - 1))       # X.691 10.5: offset from the lower bound of the full range
+                else:
+                    field = v & ((1 << w) - 1)                          # X.696 10: two's complement, big endian
+                cases.append(('%s(%d)' % (name, v), x, name, rname, v, [], format(field, '0%db' % w)))
+        elif x in ('uint', 'int') and not bit_unit:
+            for nb in (1, 2, 3, 4):
+                lo, hi = (0, (1 << (8 * nb)) - 1) if x == 'uint' else (-(1 << (8 * nb - 1)), (1 << (8 * nb - 1)) - 1)
+                for v in boundary_values(lo, hi):
+                    cases.append(('%s(%d, %d)' % (name, v, nb), x, name, rname, v, [nb], format(v & ((1 << (8 * nb)) - 1), '0%db' % (8 * nb))))
+        elif x == 'non_negative_binary_integer' and bit_unit:
+            for nb in (1, 2, 7, 8, 9, 15, 16, 17, 31, 32, 33, 63, 64):
+                for v in boundary_values(0, (1 << nb) - 1):
+                    cases.append(('%s(%d, %d)' % (name, v, nb), x, name, rname, v, [nb], format(v, '0%db' % nb)))
+        elif x == 'length_determinant' and not bit_unit:
+            for v in (0, 1, 127, 128, 255, 256, 65535, 65536, (1 << 24) - 1, 1 << 24, (1 << 32) - 1):
+                if v < 128:
+                    ref = format(v, '08b')
+                else:
+                    nb = (v.bit_length() + 7) // 8
+                    ref = format(0x80 | nb, '08b') + format(v, '0%db' % (8 * nb))      # X.696 8.6.5: fewest octets
+                cases.append(('%s(%d)' % (name, v), x, name, rname, v, [], ref))
+        elif x == 'bool':
+            for v in (0, 1):
+                cases.append(('%s(%d)' % (name, v), x, name, rname, v, [], ('1' if v else '0') if bit_unit else ('11111111' if v else '00000000')))
+    groups = {}
+    n_ok = n_und = 0
+    und = None
+    leads = (0, 1, 3, 7) if bit_unit else (0,)
+    for label, kind, wfn, rfn, v, extra, want in cases:
+        for lead in leads:
+            try:
+                bits, got, used = run_pair(kind, wfn, rfn, v, extra, lead)
+            except Undecided as e:
+                n_und += 1
+                und = und or '%s: %s' % (label, e)
+                continue
+            msg = None
+            if bits != want:
+                msg = 'writes %s, the wire format is %s' % (bits, want)
+            elif got != v or used != len(want):
+                msg = 'the octets %s are read back as %d (%d bits consumed)' % (format(int(want, 2), 'x') if want else '', got, used)
+            if msg is None:
+                n_ok += 1
+            else:
+                groups.setdefault((wfn if bits != want else rfn), ('%s%s' % (label, (' at bit offset %d' % lead) if lead else ''), msg))
+    ctx.instance(R10, '%s: %d (helper, value, offset) cases evaluated, %d undecided' % (rel, n_ok, n_und), 'VIOLATION' if groups else ('ok' if n_ok else 'undecided'), und or '',
+                 nontrivial=n_ok > 0, file=rel)
+    for fn, (label, msg) in sorted(groups.items()):
+        ctx.violation(R10, rel, None, '%s::%s' % (rel, fn), '%s: %s -- the generated C code and the Python codec disagree on this value' % (label, msg), stmt='helper arithmetic ' + fn)
 
 
 def _walk(node):
@@ -361,6 +478,7 @@ def check(ctx):
     ctx.rule('C09.R7', 'the C integer type chosen for [minimum, maximum] holds both ends (cell enumeration)')
     ctx.rule('C09.R8', 'loop counter / decoded length type holds checker.maximum')
     helper_rules(ctx, 'C09', FUN, 1)
+    arithmetic_rules(ctx, 'C09', FUN, 1)
     generator_rules(ctx, 'C09', GEN, FUN, 'uper')
 
 
@@ -410,3 +528,8 @@ MUTANTS = [
     dict(name='unsigned 16-bit threshold moved', file=UTIL, old="        elif maximum > 255:\n            maximum_length = 16", new="        elif maximum > 511:\n            maximum_length = 16", expect='C09.R7'),
 ]
 REFACTORS = []
+
+MUTANTS.append(dict(name='uper decoder_read_uint16 assembles the octets in the wrong order', file='asn1tools/source/c/uper_functions.py',
+                    old="    return (((uint16_t)buf[0] << 8) | (uint16_t)buf[1]);", new="    return (((uint16_t)buf[1] << 8) | (uint16_t)buf[0]);", expect='C09.R10'))
+MUTANTS.append(dict(name='uper encoder_append_int16 uses the offset of the 8-bit type', file='asn1tools/source/c/uper_functions.py',
+                    old="    encoder_append_uint16(self_p, (uint16_t)value + 32768);", new="    encoder_append_uint16(self_p, (uint16_t)value + 128);", expect='C09.R10'))
